@@ -52,7 +52,8 @@ def load_contracts():
 
 # properties whose frame obligations are generated for EVERY function under contract
 UNIVERSAL_FRAME_PROPS = {"C19": None,      # no undeclared global reads / writes anywhere
-                         "C13": ("nasim.envs.",)}   # purity: everything generative_step can reach
+                         "C13": ("nasim.envs.",),   # purity: everything generative_step can reach
+                         "C14": ("nasim.envs.",)}   # determinism: nobody draws from / re-seeds the global RNG undeclared
 
 
 def tasks_for(prop, REG):
@@ -75,8 +76,15 @@ def _maybe_fallback(out, repo, c, variant, concrete, tree, timeout_ms):
     """engine out of reach on a bounded task of a supported function: evaluate the same contract as a run-time monitor on
     the real code over random concrete inputs (bounded stand-in)"""
     from checks import rt_fallback
-    if concrete is None or not out.get("limit") or c.qualname not in rt_fallback.SUPPORTED:
+    if not out.get("limit") or c.qualname not in rt_fallback.SUPPORTED:
         return
+    if concrete is None:
+        if getattr(c, "bounded", True):
+            return              # the bounded task of the same contract runs the fallback
+        # contract verified in unbounded mode only: the stand-in runs on the first bounded configuration
+        concrete = BOUNDED_QUICK[0]
+        out["concrete"] = concrete
+        out["fallback_of_unbounded"] = True
     n = 40 if timeout_ms <= 20000 else 300
     try:
         r = rt_fallback.run_fallback(repo, c, variant, concrete, tree, n, seed=int(os.environ.get("VERIF_SEED", "0") or 0))
@@ -265,6 +273,10 @@ def rt_replay(cex, tree, path):
     os.unlink(bpath)
     try:
         act = json.loads(p.stdout[p.stdout.index("["):])[0]
+        if rep["harness"] in rt_fallback.NATIVE_ORACLE:
+            fails = list(act.get("clause_failures", [])) + ([f"raises:{act['exception']}"] if act.get("exception") else [])
+            return {"tree": tree, "reproduced": bool(fails), "failed_clauses": fails,
+                    "mismatches": [] if fails else ["every environment-level clause holds on the real code for this input"]}
         failed, skip = rt_fallback.evaluate(Repo(tree), REG.contracts[cex["qualname"]], cex["variant"], cex["bounded_config"],
                                             rep["harness"], rep, act)
     except Exception as e:
@@ -313,9 +325,15 @@ def check_property(prop, tier="quick", tree="/repo", record=False, jobs=None, le
     for r in res:
         if r["error"]:
             D.failures.append(f"{r['qualname']}[{r['variant']}] crashed:\n{r['error']}")
+    # unbounded-only contracts whose task fell back to the run-time stand-in are bounded results from here on
+    moved = [r for r in resA if r.get("fallback_of_unbounded")]
+    resA = [r for r in resA if not r.get("fallback_of_unbounded")]
+    resB = resB + moved
+    res = resA + resB
     covered = {(r["qualname"], r["variant"]) for r in resB if r.get("limit_covered_by_fallback")}
     limits = [r for r in resA if r["limit"] and (r["qualname"], r["variant"]) not in covered] + \
-             [r for r in resB if r["limit"] and not unb(r["qualname"]) and not r.get("limit_covered_by_fallback")]
+             [r for r in resB if r["limit"] and (not unb(r["qualname"]) or r.get("fallback_of_unbounded"))
+              and not r.get("limit_covered_by_fallback")]
     D_rt = {f"{r['qualname']}[{r['variant']}]": r["rt_fallback"] for r in resB if r.get("rt_fallback")}
     # ---- aggregate mode A by obligation name
     agg = {}
